@@ -113,6 +113,7 @@ def run(ctx):
         kinds[h.split()[-1]] = kinds.get(h.split()[-1], 0) + 1
         nops += sum(1 for l in lines if l.startswith("> "))
     ctl_histories = controllers_return(ctx)
+    L.buyer_world(ctx, "C16")
     ctx.coverage.update({
         "buyer_controller_histories": ctl_histories,
         "evaluations": nops, "distinct_nontrivial": L.distinct_count(cases, lambda h, ls: any(l.startswith("> purchased") for l in ls)),
@@ -123,6 +124,9 @@ def run(ctx):
 
 
 def replay(ctx, path):
+    r = L.buyer_world_replay(ctx, "C16", path)
+    if r is not None:
+        return r
     import json, os
     rp = json.load(open(path))
     if rp.get("signature", "").startswith("c16:ended-contract-controller"):   # a buyer-controller history: C10's replay
